@@ -11,7 +11,11 @@ PROP = {
             "names/plugins/settings/types, environment ops: status, FAILED status write followed by mutating calls, position, file-provisioned resources), failing store-op index 1-5 on one or "
             "several API ops; non-trivial = a store failure was hit or a running / file-provisioned guard refused; distinct = distinct case lines",
     "strength": "all-or-nothing: every op, argument, failing index, outside the F7 triggers (explicit table, shrinking with each repair); "
-                "guards and memory=store-on-success: full; references: invariant assumed per step (Inv), preservation not yet proved",
+                "guards and memory=store-on-success: full; references: RefInv (exactly the harness monitor's refsB, C14_refsB_of_inv) is an "
+                "inductive invariant of the orchestrator model - every op kind, every guard outcome, every failing store-operation index "
+                "outside the F7 trigger table - for memory and for the store image (C14_refs_init / _step / _reachable), so with "
+                "C14_mem_eq_store_partial memory = store = references is a theorem on every trigger-free history; inside the table the "
+                "counterexample theorems stand",
     "assumptions": ["one failing store operation per API call; NewTransaction/Set/Commit are the failure points (reads never fail)",
                     "a sequential client: the in-memory transaction (snapshot + change set) is a working copy",
                     "no processor instance is live (`running` flag) while the API is used; timestamps are not content"],
@@ -21,10 +25,15 @@ META = {
     "text": "Lean 4 theorems over an executable model of the three services (every method = validate / mutate / store-write sub-steps) and "
             "the orchestrator (transaction + rollback stack): a frame theorem (rollbacks that exactly undo their steps make every failing "
             "store-operation index all-or-nothing) instantiated for all ten API operations (C14_atomic_partial), guards for every state and "
-            "failing index (C14_guards), memory = store after every successful call and after failed ones outside the triggers. The triggers "
+            "failing index (C14_guards), memory = store after every successful call and after failed ones outside the triggers, and reference "
+            "consistency (pipelines list exactly their existing connectors/processors, those point back, lists duplicate-free; with unique "
+            "pipeline names, fresh ids and field well-formedness: Inv) as an inductive invariant: holds initially, is preserved by every "
+            "operation with every argument and failing index outside the triggers (C14_inv_step), hence on every trigger-free history for "
+            "memory and for the store image (C14_refs_reachable). The triggers "
             "(where the code as found is NOT atomic) are an explicit table with kernel-evaluated counterexamples. Tied to the code by "
             "differential runs of the real orchestrator/services on a fault-injecting DB and by regenerated sub-step orders, guards and call orders.",
     "note": "Proved about the model; the code is tied by correspondence testing (finite sample) and regenerated facts. Reference consistency is "
-            "monitored on every history and assumed as an invariant by the atomicity theorems; its preservation proof is not complete.",
+            "proved as an inductive invariant (no longer assumed) and still monitored on every history; the theorems exclude exactly the "
+            "recorded F7 trigger table (op kind x failing index x code variant flag), where kernel-evaluated counterexamples show the code as found breaks it.",
     "technique": "Lean 4 frame theorem for transaction+rollback programs + differential correspondence against the real orchestrator and services",
 }
